@@ -74,7 +74,7 @@ PROFILES = {
             "retype": 0.25, "proppatch": 8},
     "C07": {"delete": 18, "put": 34, "delcoll": 3, "mk": 5, "reupload": 6},
     "C08": {"proppatch": 14, "delete": 14, "reupload": 8, "restart": 5, "retype": 0.2},
-    "C09": {"drain": 3, "proppatch": 12, "lock": 6, "reupload": 8, "delete": 9, "untyped": 0.45, "len": 36, "put": 40,
+    "C09": {"rawics": 0.05, "drain": 3, "proppatch": 12, "lock": 6, "reupload": 8, "delete": 9, "untyped": 0.45, "len": 36, "put": 40,
             "get": 8, "manynames": True},
     "C14": {"invalid": 0.3, "reupload": 16, "put": 40, "grammar": 0.65, "ctparams": 0.6, "otherfiles": 0.15, "expandquery": 8},
     "C15": {"proppatch": 45, "restart": 8, "mk": 6, "delcoll": 3, "put": 12, "propheavy": True, "propsingle": 0.4, "lock": 5},
@@ -132,6 +132,9 @@ def ics_pool(rng, uidheavy=False):
         lines += VTZ[order[-1]] + ["END:VCALENDAR"]
         pool.append(("\r\n".join(lines) + "\r\n").encode("utf-8"))
     pool.append(gamma.ics_event(None, "no uid at all"))
+    # UIDs that spell the name (without extension) of a member another client may have created
+    for stem in ("a", "b", "UP"):
+        pool.append(gamma.ics_event(stem, "uid like the name " + stem))
     # a property that may occur only once occurs twice (servers may refuse these - but then
     # without leaving anything behind)
     pool.append(gamma.ics_event("odd-1", "twice", extra=("DTSTART:20200102T100000Z",)))
@@ -144,6 +147,15 @@ def ics_pool(rng, uidheavy=False):
     # the end of the body: no line break after END:VCALENDAR
     pool.append(gamma.ics_event("nonl-1", "no final newline").rstrip(b"\r\n"))
     return [(b, True) for b in pool]
+
+
+def _bad_tz_body():
+    from .calcases import VTZ
+    lines = ["BEGIN:VCALENDAR", "VERSION:2.0", "PRODID:-//verif//badtz//EN"]
+    lines += [ln if not ln.startswith("TZNAME:CET") else "TZNAME:C\x01ET" for ln in VTZ["Europe/Berlin"]]
+    lines += ["BEGIN:VEVENT", "UID:bad-tz-1", "DTSTAMP:20200101T000000Z", "DTSTART;TZID=Europe/Berlin:20200301T100000",
+              "SUMMARY:control character in the time zone", "END:VEVENT", "END:VCALENDAR"]
+    return ("\r\n".join(lines) + "\r\n").encode("utf-8")
 
 
 INVALID_ICS = [
@@ -165,6 +177,7 @@ INVALID_ICS = [
     b"BEGIN:VCALENDAR\r\nVERSION:2.0\r\nPRODID:x\r\nX-WR-CALNAME:bad \x01 name\r\nBEGIN:VEVENT\r\nUID:ctl-cal\r\n"
     b"DTSTAMP:20200101T000000Z\r\nDTSTART:20200101T000000Z\r\nSUMMARY:fine\r\nEND:VEVENT\r\nEND:VCALENDAR\r\n",
 ]
+INVALID_ICS.append(_bad_tz_body())
 INVALID_VCF = [
     b"",
     b"FN:No envelope\r\n",
@@ -218,6 +231,8 @@ SPECIAL_BODIES = {
                                          extra=("RRULE:FREQ=WEEKLY;COUNT=5",)),
     "recurring-tz": lambda: gamma.ics_event("special-rrule-2", "Daily", dtstart="20200301T090000Z", dtend="20200301T093000Z",
                                             extra=("RRULE:FREQ=DAILY;COUNT=3",)),
+    "uid-is-a": lambda: gamma.ics_event("a", "UID spells the stem of a.ics"),
+    "uid-is-path": lambda: gamma.ics_event("cal2/x", "UID with a slash"),
     "uid-u-1": lambda: gamma.ics_event("special-uid-u", "holder one"),
     "uid-u-2": lambda: gamma.ics_event("special-uid-u", "holder two", dtstart="20200109T100000Z", dtend="20200109T110000Z"),
 }
